@@ -240,6 +240,8 @@ struct ReadyRecord {
     last_entry: Option<(u64, u64)>,
     // (index, term) of the snapshot in Ready
     snapshot: Option<(u64, u64)>,
+    // Whether the HardState in Ready changes the term or the vote
+    term_or_vote_changed: bool,
 }
 
 /// LightReady encapsulates the commit index, committed entries and
@@ -515,6 +517,7 @@ impl<T: Storage> RawNode<T> {
         if hs != self.prev_hs {
             if hs.vote != self.prev_hs.vote || hs.term != self.prev_hs.term {
                 rd.must_sync = true;
+                rd_record.term_or_vote_changed = true;
             }
             rd.hs = Some(hs);
         }
@@ -552,7 +555,13 @@ impl<T: Storage> RawNode<T> {
 
         // Leader can send messages immediately to make replication concurrently.
         // For more details, check raft thesis 10.2.1.
-        rd.is_persisted_msg = raft.state != StateRole::Leader;
+        // That only covers log entries. A node that becomes leader in the very step that
+        // raises its term (a single voter wins its own election at once) must not speak
+        // for that term before the term and vote are persisted, so its messages wait for
+        // this ready (and every earlier one that changed term or vote) to be persisted.
+        let term_or_vote_unpersisted = rd_record.term_or_vote_changed
+            || self.records.iter().any(|r| r.term_or_vote_changed);
+        rd.is_persisted_msg = raft.state != StateRole::Leader || term_or_vote_unpersisted;
         rd.light = self.gen_light_ready();
         self.records.push_back(rd_record);
         rd
